@@ -348,7 +348,8 @@ def pwl_trials(tier):
     trials.append(dict(kind="pwl-missing", imp=imp, miv=miv, mov=mov))
   for ktype in ("fixed", "learned_interior", "learned"):
     for conv in (0, 1):
-      trials.append(dict(kind="pwl-ktype", ktype=ktype, conv=conv))
+      for units in (1, 2):
+        trials.append(dict(kind="pwl-ktype", ktype=ktype, conv=conv, units=units))
   return trials
 
 
@@ -877,8 +878,8 @@ def run_trial(t):
   if k == "pwl-ktype":
     def build():
       l = tfl.layers.PWLCalibration(input_keypoints=np.array([0.0, 1.0, 2.0], dtype=np.float32),
-                                    input_keypoints_type=t["ktype"], convexity=t["conv"])
-      l.build((None, 1)); return l
+                                    input_keypoints_type=t["ktype"], convexity=t["conv"], units=t.get("units", 1))
+      l.build((None, 1)); return l  # one shared input column feeds every unit
     expect = "reject" if (t["ktype"] == "learned" or (t["ktype"] == "learned_interior" and t["conv"])) else "accept"
     outcome, detail = attempt(build, lambda l: bool(np.all(np.isfinite(np.asarray(l(tf.constant([[0.5], [3.0]])))))
                                                    and np.all(np.isfinite(graph_call(l, np.array([[0.5], [3.0]], dtype=np.float32))))))
